@@ -251,7 +251,7 @@ def gates(t, job, part, on_token, V):
     if o is not None and t.snap(o).get('CKA_PRIVATE') is False:
         x.call('C_DestroyObject', s=t.s, o=o); o = t.mk(kind, token=on_token, private=True)
     if o is not None:
-        for tm in ([('CKA_PRIVATE', False)], [('CKA_LABEL', b'p'), ('CKA_PRIVATE', False)], [('CKA_PRIVATE', False), ('CKA_TOKEN', not on_token)], [('CKA_PRIVATE', True), ('CKA_PRIVATE', False)]):
+        for tm in ([('CKA_PRIVATE', False)], [('CKA_LABEL', b'p'), ('CKA_PRIVATE', False)], [('CKA_PRIVATE', False), ('CKA_TOKEN', not on_token)], [('CKA_PRIVATE', True), ('CKA_PRIVATE', False)], [('CKA_PRIVATE', b'\x00\x00')], [('CKA_PRIVATE', b'')]):      # (the last two: a false that the pre-check of C_CopyObject does not recognise)
             r = x.call('C_CopyObject', s=t.s, o=o, tmpl=x.T(tm)); part.case((kind, where, 'private->public', tuple(n for n, _ in tm)), nontrivial=True); part.count('cells_gate')
             if r['rv'] == 0:
                 pv = t.snap(r['h']).get('CKA_PRIVATE')
@@ -536,7 +536,7 @@ def run(ctx):
     backends = ctx.q(('file',), ('file', 'db'))
     for be in backends:
         for kind in ALLK: jobs.append(dict(paths=p, hdr=p['hdr'], scratch=ctx.scratch, what='table', kind=kind, backend=be, name=f'{be}-{kind}', quick=ctx.quick))
-    nh = ctx.q(208, 3008); per = 13 if ctx.quick else 47
+    nh = ctx.q(416, 3008); per = 13 if ctx.quick else 47
     for i in range(0, nh, per):
         be = backends[(i // per) % len(backends)]
         jobs.append(dict(paths=p, hdr=p['hdr'], scratch=ctx.scratch, what='hist', backend=be, name=f'{be}-hist{i}', seeds=[ctx.seed * 1000003 + i + j for j in range(per)], steps=ctx.q(7, 9)))
